@@ -299,6 +299,31 @@ func (d *DAG) DownSets(root int) [][]int {
 	return out
 }
 
+// TypeOf returns the artifact type of a manifest node as the property defines
+// it: artifactType, else the config media type ("" for nodes with neither).
+func (d *DAG) TypeOf(id int) string {
+	n := d.Nodes[id]
+	if n.Kind == KDockerManifest {
+		return "" // Docker manifests are not artifacts; the statement's rule is read for OCI image and artifact manifests
+	}
+	if n.ArtifactType != "" {
+		return n.ArtifactType
+	}
+	return n.ConfigMT
+}
+
+// RichDesc returns the node's descriptor carrying artifactType and annotations,
+// as a Referrers-API listing would.
+func (d *DAG) RichDesc(id int) ocispec.Descriptor {
+	n := d.Nodes[id]
+	r := n.Desc
+	if n.Kind.IsManifest() {
+		r.ArtifactType = d.TypeOf(id)
+		r.Annotations = n.Annotations
+	}
+	return r
+}
+
 func (d *DAG) String() string {
 	var sb strings.Builder
 	sb.WriteString(d.Name + "{")
@@ -380,7 +405,7 @@ func Curated() []*DAG {
 		c := d.Blob("C", MTConfig, "{}")
 		l := d.Blob("L", MTLayer, "l")
 		m := d.Manifest("M", c, []int{l}, no())
-		r1 := d.Manifest("R1", c, nil, ManifestOpt{Subject: m, ArtifactType: "application/vnd.test.sig"})
+		r1 := d.Manifest("R1", c, nil, ManifestOpt{Subject: m, ArtifactType: "application/vnd.test.sig", Annotations: map[string]string{"k": "v1"}})
 		d.Manifest("R2", c, []int{l}, ManifestOpt{Subject: r1, ArtifactType: "application/vnd.test.att"})
 	})
 	mk("nested-index", func(d *DAG) {
@@ -428,8 +453,8 @@ func Curated() []*DAG {
 		l := d.Blob("L", MTLayer, "l")
 		s := d.Blob("S", MTLayer, "shared")
 		m := d.Manifest("M", c, []int{l}, no())
-		d.Manifest("R1", c, []int{s}, ManifestOpt{Subject: m, ArtifactType: "application/vnd.test.a"})
-		d.Manifest("R2", c, []int{s, l}, ManifestOpt{Subject: m, ArtifactType: "application/vnd.test.b"})
+		d.Manifest("R1", c, []int{s}, ManifestOpt{Subject: m, ArtifactType: "application/vnd.test.a", Annotations: map[string]string{"k": "v1"}})
+		d.Manifest("R2", c, []int{s, l}, ManifestOpt{Subject: m, ArtifactType: "application/vnd.test.b", Annotations: map[string]string{"k": "v2", "other": "x"}})
 	})
 	mk("platform", func(d *DAG) {
 		c1 := d.Blob("Camd", MTConfig, `{"architecture":"amd64","os":"linux"}`)
@@ -438,6 +463,17 @@ func Curated() []*DAG {
 		m1 := d.Manifest("Mamd", c1, []int{l}, no())
 		m2 := d.Manifest("Marm", c2, []int{l}, no())
 		d.Index("I", []int{m1, m2}, ManifestOpt{Subject: -1, Platforms: []*ocispec.Platform{{Architecture: "amd64", OS: "linux"}, {Architecture: "arm64", OS: "linux"}}})
+	})
+	mk("referrer-types", func(d *DAG) {
+		c := d.Blob("C", MTConfig, "{}")
+		ct := d.Blob("CT", "application/vnd.test.cfgtype", "{}")
+		l := d.Blob("L", MTLayer, "l")
+		m := d.Manifest("M", c, []int{l}, no())
+		d.Manifest("Rcfg", ct, nil, ManifestOpt{Subject: m})                                                   // type = config media type
+		d.Manifest("Rat", c, nil, ManifestOpt{Subject: m, ArtifactType: "application/vnd.test.sig"})           // artifactType wins over config type
+		d.Manifest("Rboth", ct, []int{l}, ManifestOpt{Subject: m, ArtifactType: "application/vnd.test.other"}) // both set
+		b := d.Blob("B", "application/vnd.test.blob", "x")
+		d.Artifact("A", []int{b}, ManifestOpt{Subject: m, ArtifactType: "application/vnd.test.sig"})
 	})
 	mk("fanout", func(d *DAG) {
 		c := d.Blob("C", MTConfig, "{}")
